@@ -230,6 +230,15 @@ func (e *Exec) zzIntrinsic(name string, args []Value) (Value, bool) {
 		v := r.choose(e, vals)
 		r.lens[nm] = v
 		return b.ConstU(64, uint64(v)), true
+	case "zzConcU8", "zzConcU16", "zzConcU32", "zzConcU64", "zzConcInt":
+		// case-split on the value of a term (one path per feasible value); returns the constant
+		t := e.termOf(args[0])
+		if t.IsConst() {
+			return t, true
+		}
+		w := int(t.S)
+		v := r.concretize(e, b.ZExt(t, 64), "zzConc")
+		return b.ConstU(w, uint64(v)), true
 	case "zzAssume":
 		r.assume(e, e.termOf(args[0]), "")
 		// assumption may make the path infeasible; check lazily at next query
